@@ -106,21 +106,24 @@ Agrees(r, m) ==
 (* ------------------------------------------------------------ the whole table, fast *)
 \* single table units (index 0 = no unit): dimension classes computed once
 UMap(u) == IF u = 0 THEN <<>> ELSE << <<<<"u", 0, u>>, QOne>> >>
-UDim == [u \in 0..NU |-> IF u = 0 THEN DZero ELSE Units[u].dim]
-DimId == [u \in 0..NU |-> CHOOSE v \in 0..NU : UDim[v] = UDim[u] /\ \A w \in 0..(v - 1) : UDim[w] # UDim[u]]
-NegId == [u \in 0..NU |-> IF \E v \in 0..NU : UDim[v] = DNeg(UDim[u])
+UDim == TLCEval([u \in 0..NU |-> IF u = 0 THEN DZero ELSE Units[u].dim])
+DimId == TLCEval([u \in 0..NU |-> CHOOSE v \in 0..NU : UDim[v] = UDim[u] /\ \A w \in 0..(v - 1) : UDim[w] # UDim[u]])
+NegId == TLCEval([u \in 0..NU |-> IF \E v \in 0..NU : UDim[v] = DNeg(UDim[u])
                           THEN CHOOSE v \in 0..NU : UDim[v] = DNeg(UDim[u]) /\ \A w \in 0..(v - 1) : UDim[w] # DNeg(UDim[u])
-                          ELSE 0 - 1]
-Plain(u) == u = 0 \/ (Units[u].name \notin OffsetNames /\ Units[u].name \notin LogNames)
+                          ELSE 0 - 1])
+PlainSet == TLCEval({u \in 0..NU : u = 0 \/ (Units[u].name \notin OffsetNames /\ Units[u].name \notin LogNames)})
+ExactSet == TLCEval({u \in 0..NU : u = 0 \/ Units[u].m10ok})
+RadIdx == CHOOSE u \in 1..NU : Units[u].name = "rad"
+Plain(u) == u \in PlainSet
 \* the rule for two plain single units by class ids only
 SRule(u, v) == IF DimId[u] = DimId[v] THEN "linear"
                ELSE IF NegId[u] = DimId[v] THEN "inverse"
-               ELSE IF u = 0 /\ v > 0 /\ Units[v].name = "rad" THEN "nounit_rad"
+               ELSE IF u = 0 /\ v = RadIdx THEN "nounit_rad"
                ELSE "reject"
 
 \* exact value model for units whose table factor is a power of ten: value = q * 10^e
 FExp(u) == IF u = 0 THEN 0 ELSE Units[u].m10
-FExact(u) == u = 0 \/ Units[u].m10ok
+FExact(u) == u \in ExactSet
 ConvQ(r, x, u, v) == CASE r \in {"linear", "nounit_rad"} -> [q |-> x.q, e |-> x.e + FExp(u) - FExp(v)]
                        [] r = "inverse" -> [q |-> QInv(x.q), e |-> 0 - x.e - FExp(u) - FExp(v)]
 ModelXs == {[q |-> <<1, 1>>, e |-> 0], [q |-> <<0 - 3, 1>>, e |-> 0], [q |-> <<5, 2>>, e |-> 0 - 7]}
